@@ -106,11 +106,19 @@ func decideAccept(c *Ctx, rule, key string, r *Run, errIdx int, spec *Formula, a
 		}
 	}
 	acc, _, prob := errSplit(r, errIdx)
+	var code *Formula
 	if prob != "" {
-		c.R.Unknown(rule, key, pos, prob)
-		return nil, false
+		// a return whose error value is merged (the routine forwards the result of a helper that has several returns): the
+		// accept condition is read from the merged value (nil under which conditions)
+		f, prob2 := acceptFormula(r, errIdx)
+		if prob2 != "" {
+			c.R.Unknown(rule, key, pos, prob)
+			return nil, false
+		}
+		code, acc = f, nil
+	} else {
+		code = FExits(acc, func(absint.Exit) bool { return true })
 	}
-	code := FExits(acc, func(absint.Exit) bool { return true })
 	ok, detail := Equivalent(code, spec)
 	if ok {
 		c.R.OK(rule, key, pos, "accepts exactly when "+spec.String()+" ("+detail+")")
